@@ -379,6 +379,35 @@ func c10u4(p *Prog, r *Reporter) {
 				}
 				rel, c, ok := boundOnEdge(atom, holds, func(v ssa.Value) bool { return v == ssa.Value(pr) })
 				return ok && impliesAtLeast(rel, c, 1) && p.panicOnly(x.Succs[1-k])
+			}, InstrGen: func(i ssa.Instruction) bool {
+				// a validating helper: a call that returns normally only if its argument (this count) is at least 1
+				c2, ok := i.(ssa.CallInstruction)
+				if !ok {
+					return false
+				}
+				g := c2.Common().StaticCallee()
+				if g == nil || g.Blocks == nil || !p.isArche(g) {
+					return false
+				}
+				for j, a := range c2.Common().Args {
+					if stripConvs(a) != ssa.Value(pr) || j >= len(g.Params) {
+						continue
+					}
+					gp := g.Params[j]
+					hm := &MustFlow{Fn: g, EdgeGen: func(x *ssa.BasicBlock, k int) bool {
+						atom, holds, ok := edgeCond(x, k)
+						if !ok {
+							return false
+						}
+						rel, c, ok := boundOnEdge(atom, holds, func(v ssa.Value) bool { return v == ssa.Value(gp) })
+						return ok && impliesAtLeast(rel, c, 1)
+					}}
+					hm.Run()
+					if hm.AtAllReturns() {
+						return true
+					}
+				}
+				return false
 			}}
 			mf.Run()
 			r.Check(mf.Before(site.(ssa.Instruction)), name, "U4 bulk count", p.Pos(site.Pos()), "the bulk creation is dominated by `"+pr.Name()+" < 1 → panic`")
